@@ -260,8 +260,8 @@ func checkC18(c *Ctx, r *Report) {
 				})
 			}
 		}
-		if n < 12 {
-			viol = fmt.Sprintf("only %d reads of token.Position.Line/Column found (floor 12)", n)
+		if n < 4 {
+			viol = fmt.Sprintf("only %d reads of token.Position.Line/Column found (floor 4: the conversions may be shared by one helper)", n)
 		}
 		o := r.add("C18.b", "fieldflow", "token.Position->0-based", "every use of a go/token line or column converts it to 0-based", []string{"common.ResolveNodeRange", "gast.MapDocListToCommentBlock", "(*core/arbitrators.AstArbitrator).getRangeForNode"}, sites, viol)
 		o.NonTrivial = true
@@ -557,7 +557,7 @@ func checkDiagOperands(c *Ctx, r *Report) {
 	// ties: roots that denote the same entity inside methods of one type, with the fact that ties them
 	ties := map[string][][2]string{
 		"core/validators.AnnotationLinkValidator": {{"recv.receiver", "recv.groupedAttributes"}, {"recv.receiver", "param:<attribute>"}},
-		"core/validators.ReceiverValidator":       {{"param:receiver", "param:param"}},
+		"core/validators.ReceiverValidator":       {{"param:receiver", "param:param"}, {"recv.receiver", "param:param"}}, // (the validator's own receiver field is the receiver under validation - what every caller passed)
 		"core/validators.CommonValidator":         {{"recv.holder", "param:attribute"}},
 		"core/validators.getDiagForRetSig":        {},
 	}
